@@ -1910,15 +1910,18 @@ Lemma Cons_unregister : forall f e st n, f_additive f -> f_negative f ->
   (forall k t, In k (keys st) -> is_prefix n k = false -> e k (info st2 k) t = e k (info st k) t) ->
   Cons f e (filter (fun en => negb (is_prefix n (fst en))) st2).
 Proof.
-  intros f e st n Hfa Hfn Hnd Hn Hne Hc st1 st2 He p Hp t.
-  rewrite keys_filter in Hp. apply filter_In in Hp. destruct Hp as [Hp Hpn].
+  intros f e st n Hfa Hfn Hnd Hn Hne Hc st1 st2 He.
+  set (g := fun k : path => negb (is_prefix n k)).
+  change (Cons f e (filter (fun en => g (fst en)) st2)).
+  intros p Hp t.
+  rewrite keys_filter in Hp. apply filter_In in Hp. destruct Hp as [Hp Hgp].
   unfold st2, st1 in Hp. rewrite !keys_up_adjust in Hp.
-  apply negb_true_iff in Hpn.
+  assert (Hpn : is_prefix n p = false) by (unfold g in Hgp; apply negb_true_iff in Hgp; exact Hgp).
   assert (Hk2 : keys st2 = keys st) by (unfold st2, st1; rewrite !keys_up_adjust; reflexivity).
   (* the counters of p *)
-  assert (HU : f (U (filter (fun en => negb (is_prefix n (fst en))) st2) p t) =
+  assert (HU : f (U (filter (fun en => g (fst en)) st2) p t) =
                f (U st p t) - (if is_prefix p n then f (U st n t) else 0)).
-  { unfold U at 1. rewrite info_filter, Hpn. simpl.
+  { unfold U at 1. rewrite info_filter, Hgp. cbv iota.
     fold (U st2 p t). unfold st2. rewrite U_up_adjust by (unfold st1; rewrite keys_up_adjust; exact Hp).
     assert (Hz : f (uget (uneg (i_usage (info st1 n))) t) = 0).
     { rewrite uget_uneg, Hfn. fold (U st1 n t). unfold st1. rewrite U_up_adjust by exact Hn.
@@ -1930,10 +1933,10 @@ Proof.
   rewrite HU. rewrite S_filter, Hk2.
   rewrite (Hc p Hp t). unfold S.
   assert (Hsplit : sumZ (fun k => if is_prefix p k then e k (info st k) t else 0) (keys st) =
-                   sumZ (fun k => if negb (is_prefix n k) && is_prefix p k then e k (info st2 k) t else 0) (keys st) +
+                   sumZ (fun k => if g k && is_prefix p k then e k (info st2 k) t else 0) (keys st) +
                    sumZ (fun k => if is_prefix n k && is_prefix p k then e k (info st k) t else 0) (keys st)).
   { rewrite <- sumZ_plus. apply sumZ_ext_in. intros k Hk.
-    destruct (is_prefix n k) eqn:E; simpl; [lia|]. destruct (is_prefix p k); [|lia]. rewrite He by assumption. lia. }
+    unfold g. destruct (is_prefix n k) eqn:E; simpl; [lia|]. destruct (is_prefix p k); [|lia]. rewrite He by assumption. lia. }
   rewrite Hsplit.
   assert (Hsec : sumZ (fun k => if is_prefix n k && is_prefix p k then e k (info st k) t else 0) (keys st) =
                  if is_prefix p n then f (U st n t) else 0).
@@ -1959,6 +1962,8 @@ Proof.
   set (st1 := up_adjust st n (uneg (i_usage (info st n)))).
   set (st2 := up_adjust st1 (removelast n) (uneg (i_usage (info st1 n)))).
   assert (Hne : n <> []) by (intro E; subst; discriminate).
+  set (g := fun k : path => negb (is_prefix n k)).
+  change (Inv (filter (fun en => g (fst en)) st2) (ref_step r (Unregister n))).
   destruct Hi as [Hs Cv Cr Ce Cm Hr].
   assert (Hk2 : keys st2 = keys st) by (unfold st2, st1; rewrite !keys_up_adjust; reflexivity).
   assert (Hinfo2 : forall k, In k (keys st) -> i_vols (info st2 k) = i_vols (info st k) /\ i_ecs (info st2 k) = i_ecs (info st k)).
@@ -2014,12 +2019,12 @@ Proof.
     + intro p. rewrite Hrk, keys_filter, Hk2, filter_In, R2. split.
       * intros [[H1 H2] H3]. split; auto. split; auto. apply negb_true_iff.
         destruct (is_prefix n p) eqn:E; auto. exfalso. apply H3. symmetry. apply is_prefix_same_length; auto. lia.
-      * intros [[H1 H2] H3]. split; auto. intro E. subst p. rewrite is_prefix_refl in H2. discriminate.
+      * intros [[H1 H2] H3]. split; auto. intro E. subst p. unfold g in H2. rewrite is_prefix_refl in H2. discriminate.
     + intros m Hm t. apply Hrk in Hm. destruct Hm as [Hm Hmn].
       destruct (proj1 (R2 m) Hm) as [Hmk Hml].
       assert (Enm : is_prefix n m = false).
       { destruct (is_prefix n m) eqn:E; auto. exfalso. apply Hmn. symmetry. apply is_prefix_same_length; auto. lia. }
-      unfold U. rewrite info_filter, Enm. simpl. fold (U st2 m t).
+      unfold U. rewrite info_filter. unfold g. rewrite Enm. cbn [negb]. cbv iota. fold (U st2 m t).
       assert (Eref : ref_info (filter (fun e => negb (path_eqb (fst e) n)) r) m = ref_info r m).
       { clear - Hmn. induction r as [|[k i] r IH]; simpl; auto.
         destruct (path_eqb k n) eqn:E1; simpl.
@@ -2036,4 +2041,890 @@ Proof.
       { destruct (is_prefix m n) eqn:E; auto. exfalso. apply Hmn. apply is_prefix_same_length; auto. lia. }
       rewrite E2. reflexivity.
 Qed.
-(* END-OF-PART-4C *)
+
+(* ================================================================== *)
+(* 13. full EC heartbeat (UpdateEcShards)                              *)
+(* ================================================================== *)
+Lemma popcount_pos_pos : forall p, 0 < popcount_pos p.
+Proof. induction p; cbn [popcount_pos]; lia. Qed.
+Lemma popcount_nonneg : forall b, 0 <= popcount b.
+Proof. intros [|p]; cbn [popcount]; [lia|]. pose proof (popcount_pos_pos p). lia. Qed.
+Lemma popcount_Ndouble : forall n, popcount (Pos.Ndouble n) = popcount n.
+Proof. intros [|p]; reflexivity. Qed.
+Lemma popcount_Nsucc_double : forall n, popcount (Pos.Nsucc_double n) = 1 + popcount n.
+Proof. intros [|p]; reflexivity. Qed.
+
+Lemma popcount_pos_split : forall p q,
+  popcount (Pos.ldiff p q) + popcount (Pos.land p q) = popcount_pos p.
+Proof.
+  induction p as [p IH|p IH|]; intros [q|q|]; cbn [Pos.ldiff Pos.land];
+    rewrite ?popcount_Ndouble, ?popcount_Nsucc_double; cbn [popcount popcount_pos];
+    try (specialize (IH q)); try lia.
+Qed.
+
+Lemma popcount_split : forall a b, popcount (N.ldiff a b) + popcount (N.land a b) = popcount a.
+Proof.
+  intros [|p] [|q]; simpl; try lia. apply popcount_pos_split.
+Qed.
+
+Lemma popcount_exchange : forall a e,
+  popcount (N.ldiff a e) - popcount (N.ldiff e a) + popcount e = popcount a.
+Proof.
+  intros a e. pose proof (popcount_split a e). pose proof (popcount_split e a).
+  rewrite (N.land_comm e a) in H0. lia.
+Qed.
+
+Lemma popcount_ldiff_diag : forall b, popcount (N.ldiff b b) = 0.
+Proof. intro b. rewrite N.ldiff_diag. reflexivity. Qed.
+
+(* ---- states related by EC-only counter changes under the data node n ---- *)
+Lemma info_goc : forall st n x k, info (get_or_create_disk st n x) k = info st k.
+Proof.
+  intros st n x k. unfold get_or_create_disk. destruct (present st (n ++ [x])) eqn:P; [reflexivity|].
+  rewrite info_app_new. destruct (present st k) eqn:Pk; [reflexivity|].
+  apply present_false in Pk. rewrite (info_absent st k Pk). destruct (path_eqb (n ++ [x]) k); reflexivity.
+Qed.
+
+Lemma Struct_goc : forall st n x, Struct st -> In n (keys st) -> Struct (get_or_create_disk st n x).
+Proof.
+  intros st n x Hs Hn. unfold get_or_create_disk. destruct (present st (n ++ [x])) eqn:P; [exact Hs|].
+  apply present_false in P. apply Struct_add; auto. apply payload_ok_empty.
+Qed.
+
+Lemma keys_goc : forall st n x k, In k (keys (get_or_create_disk st n x)) <-> In k (keys st) \/ k = n ++ [x].
+Proof.
+  intros st n x k. unfold get_or_create_disk. destruct (present st (n ++ [x])) eqn:P.
+  - apply present_in in P. split; [auto|intros [H|H]; subst; auto].
+  - rewrite keys_app, in_app_iff. simpl. intuition.
+Qed.
+
+Section FullEc.
+  Variable n : path.
+  Hypothesis Hln : length n = 3%nat.
+
+  Definition ec_adj (s : state) (d : string) (c : Z) : state :=
+    up_adjust (get_or_create_disk s n d) (n ++ [d]) (ec_delta d c).
+
+  (* s differs from st0 by new empty disks under n and by EC-shard counter changes D *)
+  Record EcRel (st0 s : state) (D : path -> string -> Z) : Prop := {
+    er_struct : Struct s;
+    er_keys : forall k, In k (keys st0) -> In k (keys s);
+    er_new : forall k, In k (keys s) -> ~ In k (keys st0) -> exists d, k = n ++ [d];
+    er_vols : forall k, i_vols (info s k) = i_vols (info st0 k);
+    er_ecs : forall k, i_ecs (info s k) = i_ecs (info st0 k);
+    er_other : forall k t, volumeCount (U s k t) = volumeCount (U st0 k t) /\
+                           remoteVolumeCount (U s k t) = remoteVolumeCount (U st0 k t) /\
+                           maxVolumeCount (U s k t) = maxVolumeCount (U st0 k t);
+    er_ec : forall k t, ecShardCount (U s k t) = ecShardCount (U st0 k t) + D k t }.
+
+  Lemma EcRel_refl : forall st, Struct st -> EcRel st st (fun _ _ => 0).
+  Proof.
+    intros st Hs. constructor; auto.
+    - intros k H1 H2. contradiction.
+    - intros. lia.
+  Qed.
+
+  Lemma EcRel_adj : forall st0 s D d c, EcRel st0 s D -> In n (keys s) ->
+    EcRel st0 (ec_adj s d c)
+          (fun k t => D k t + (if is_prefix k (n ++ [d]) && String.eqb (to_dt d) t then c else 0)).
+  Proof.
+    intros st0 s D d c [Hs Hk Hnew Hv He Ho Hec] Hn. unfold ec_adj.
+    set (s1 := get_or_create_disk s n d).
+    assert (Hs1 : Struct s1) by (apply Struct_goc; auto).
+    assert (HU1 : forall k t, U s1 k t = U s k t) by (intros; unfold U, s1; rewrite info_goc; reflexivity).
+    assert (Habs : forall k, ~ In k (keys s1) -> is_prefix k (n ++ [d]) = false /\ ~ In k (keys s)).
+    { intros k Hin. split.
+      - destruct (is_prefix k (n ++ [d])) eqn:E; auto. exfalso. apply Hin.
+        eapply (s_pc _ Hs1); [|exact E]. apply keys_goc. right. reflexivity.
+      - intro X. apply Hin. apply keys_goc. left. exact X. }
+    assert (G : forall (f : counts -> Z) k t, f_additive f -> f zero_counts = 0 ->
+                f (U (up_adjust s1 (n ++ [d]) (ec_delta d c)) k t) =
+                f (U s k t) + (if is_prefix k (n ++ [d]) && String.eqb (to_dt d) t then f (mkCounts 0 0 0 c 0) else 0)).
+    { intros f k t Hfa Hf0.
+      destruct (in_dec (list_eq_dec string_dec) k (keys s1)) as [Hin|Hin].
+      - rewrite U_up_adjust by exact Hin. rewrite HU1.
+        destruct (is_prefix k (n ++ [d])); cbn [andb]; [|lia].
+        rewrite Hfa, ec_delta_get by assumption. destruct (String.eqb (to_dt d) t); lia.
+      - destruct (Habs k Hin) as [E Hin']. rewrite E. cbn [andb].
+        unfold U. rewrite info_up_adjust_absent by exact Hin. rewrite (info_absent s k Hin'). simpl. lia. }
+    constructor.
+    - apply Struct_up_adjust. exact Hs1.
+    - intros k Hk0. rewrite keys_up_adjust. apply keys_goc. left. auto.
+    - intros k Hk1 Hk0. rewrite keys_up_adjust in Hk1. apply keys_goc in Hk1. destruct Hk1 as [Hk1|Hk1].
+      + apply Hnew; auto.
+      + exists d. exact Hk1.
+    - intro k. rewrite vols_up_adjust. unfold s1. rewrite info_goc. apply Hv.
+    - intro k. rewrite ecs_up_adjust. unfold s1. rewrite info_goc. apply He.
+    - intros k t. destruct (Ho k t) as [O1 [O2 O3]].
+      rewrite (G volumeCount k t add_vol eq_refl), (G remoteVolumeCount k t add_remote eq_refl),
+              (G maxVolumeCount k t add_max eq_refl). simpl.
+      destruct (is_prefix k (n ++ [d]) && String.eqb (to_dt d) t); repeat split; lia.
+    - intros k t. rewrite (G ecShardCount k t add_ec eq_refl). simpl. rewrite (Hec k t).
+      destruct (is_prefix k (n ++ [d]) && String.eqb (to_dt d) t); lia.
+  Qed.
+
+  (* a list of (disk, amount) adjustments *)
+  Definition adj_fold (l : list (string * Z)) (s : state) : state :=
+    fold_left (fun s dc => ec_adj s (fst dc) (snd dc)) l s.
+  Definition adj_sum (l : list (string * Z)) (k : path) (t : string) : Z :=
+    sumZ (fun dc => if is_prefix k (n ++ [fst dc]) && String.eqb (to_dt (fst dc)) t then snd dc else 0) l.
+
+  Lemma EcRel_adj_fold : forall l st0 s D, EcRel st0 s D -> In n (keys s) ->
+    EcRel st0 (adj_fold l s) (fun k t => D k t + adj_sum l k t) /\ In n (keys (adj_fold l s)).
+  Proof.
+    induction l as [|[d c] l IH]; intros st0 s D Hr Hn; simpl.
+    - split; auto. destruct Hr. constructor; auto. intros. unfold adj_sum. simpl. rewrite Z.add_0_r. auto.
+    - pose proof (EcRel_adj st0 s D d c Hr Hn) as Hr1.
+      assert (Hn1 : In n (keys (ec_adj s d c))).
+      { unfold ec_adj. rewrite keys_up_adjust. apply keys_goc. left. exact Hn. }
+      destruct (IH st0 _ _ Hr1 Hn1) as [Hr2 Hn2]. split; auto.
+      destruct Hr2. constructor; auto.
+      intros k t. rewrite er_ec0. unfold adj_sum. simpl. lia.
+  Qed.
+End FullEc.
+
+(* ---- the two loops of UpdateEcShards as lists of adjustments ---- *)
+Definition an_of (actual : list ecinfo) (e : ecinfo) : Z :=
+  match find_ec_last (e_id e) actual with
+  | Some a => popcount (N.ldiff (e_bits a) (e_bits e)) | None => 0 end.
+Definition dn_of (actual : list ecinfo) (e : ecinfo) : Z :=
+  match find_ec_last (e_id e) actual with
+  | Some a => popcount (N.ldiff (e_bits e) (e_bits a)) | None => popcount (e_bits e) end.
+(* what one registered EC volume should contribute on its own *)
+Definition own (actual : list ecinfo) (e : ecinfo) : Z := an_of actual e - dn_of actual e.
+Definition chg (actual : list ecinfo) (e : ecinfo) : bool :=
+  match find_ec_last (e_id e) actual with
+  | None => true | Some _ => (0 <? an_of actual e) || (0 <? dn_of actual e) end.
+
+Definition loop1_step (n : path) (actual : list ecinfo) (acc : state * Z * Z * bool) (e : ecinfo)
+  : state * Z * Z * bool :=
+  let '(s, newCount, delCount, changed) := acc in
+  let s1 := get_or_create_disk s n (e_disk e) in
+  let '(newCount', delCount', changed') :=
+    match find_ec_last (e_id e) actual with
+    | None => (newCount, delCount + popcount (e_bits e), true)
+    | Some a =>
+        let an := popcount (N.ldiff (e_bits a) (e_bits e)) in
+        let dn := popcount (N.ldiff (e_bits e) (e_bits a)) in
+        ((if 0 <? an then newCount + an else newCount),
+         (if 0 <? dn then delCount + dn else delCount),
+         changed || (0 <? an) || (0 <? dn))
+    end in
+  (up_adjust s1 (n ++ [e_disk e]) (ec_delta (e_disk e) (newCount' - delCount')),
+   newCount', delCount', changed').
+
+Definition loop2_step (n : path) (registered : list ecinfo) (acc : state * bool) (a : ecinfo) : state * bool :=
+  let '(s, changed) := acc in
+  if existsb (fun e => N.eqb (e_id e) (e_id a)) registered then acc
+  else
+    let s1 := get_or_create_disk s n (e_disk a) in
+    (up_adjust s1 (n ++ [e_disk a]) (ec_delta (e_disk a) (popcount (e_bits a))), true).
+
+Lemma update_ec_unfold : forall order st n actual,
+  update_ec_shards order st n actual =
+  let existing := permute order (node_ecs st n) in
+  let '(st1, _, _, changed1) := fold_left (loop1_step n actual) existing (st, 0, 0, false) in
+  let '(st2, changed2) := fold_left (loop2_step n (node_ecs st n)) actual (st1, changed1) in
+  if changed2 then do_update_ec_shards st2 n actual else st2.
+Proof. reflexivity. Qed.
+
+Lemma loop1_step_eq : forall n actual s nc dc ch e,
+  loop1_step n actual (s, nc, dc, ch) e =
+  (ec_adj n s (e_disk e) ((nc + an_of actual e) - (dc + dn_of actual e)),
+   nc + an_of actual e, dc + dn_of actual e, ch || chg actual e).
+Proof.
+  intros n actual s nc dc ch e. unfold loop1_step, chg, an_of, dn_of, ec_adj.
+  destruct (find_ec_last (e_id e) actual) as [a|].
+  - pose proof (popcount_nonneg (N.ldiff (e_bits a) (e_bits e))) as H1.
+    pose proof (popcount_nonneg (N.ldiff (e_bits e) (e_bits a))) as H2.
+    assert (E1 : (if 0 <? popcount (N.ldiff (e_bits a) (e_bits e)) then nc + popcount (N.ldiff (e_bits a) (e_bits e)) else nc)
+                 = nc + popcount (N.ldiff (e_bits a) (e_bits e))).
+    { destruct (0 <? popcount (N.ldiff (e_bits a) (e_bits e))) eqn:E; auto. apply Z.ltb_ge in E. lia. }
+    assert (E2 : (if 0 <? popcount (N.ldiff (e_bits e) (e_bits a)) then dc + popcount (N.ldiff (e_bits e) (e_bits a)) else dc)
+                 = dc + popcount (N.ldiff (e_bits e) (e_bits a))).
+    { destruct (0 <? popcount (N.ldiff (e_bits e) (e_bits a))) eqn:E; auto. apply Z.ltb_ge in E. lia. }
+    rewrite E1, E2. rewrite orb_assoc. reflexivity.
+  - rewrite Z.add_0_r, orb_true_r. reflexivity.
+Qed.
+
+Lemma loop1_fold : forall n actual l s nc dc ch, nc - dc = 0 ->
+  (forall e, In e (removelast l) -> own actual e = 0) ->
+  exists nc' dc', fold_left (loop1_step n actual) l (s, nc, dc, ch) =
+    (adj_fold n (map (fun e => (e_disk e, own actual e)) l) s, nc', dc', ch || existsb (chg actual) l).
+Proof.
+  intros n actual. induction l as [|e l IH]; intros s nc dc ch H0 Hz.
+  - exists nc, dc. simpl. rewrite orb_false_r. reflexivity.
+  - cbn [fold_left]. rewrite loop1_step_eq.
+    replace (nc + an_of actual e - (dc + dn_of actual e)) with (own actual e) by (unfold own; lia).
+    destruct l as [|e' l'].
+    + eexists _, _. simpl. rewrite orb_false_r. reflexivity.
+    + assert (Hown : own actual e = 0) by (apply Hz; simpl; left; reflexivity).
+      destruct (IH (ec_adj n s (e_disk e) (own actual e)) (nc + an_of actual e) (dc + dn_of actual e) (ch || chg actual e))
+        as [nc' [dc' E]].
+      * unfold own in Hown. lia.
+      * intros x Hx. apply Hz. simpl. right. exact Hx.
+      * exists nc', dc'. rewrite E. cbn [map adj_fold fold_left fst snd existsb]. rewrite !orb_assoc. reflexivity.
+Qed.
+
+Definition new_of (registered actual : list ecinfo) : list ecinfo :=
+  filter (fun a => negb (existsb (fun e => N.eqb (e_id e) (e_id a)) registered)) actual.
+
+Lemma loop2_fold : forall n registered actual s ch,
+  fold_left (loop2_step n registered) actual (s, ch) =
+  (adj_fold n (map (fun a => (e_disk a, popcount (e_bits a))) (new_of registered actual)) s,
+   ch || negb (match new_of registered actual with [] => true | _ => false end)).
+Proof.
+  intros n registered. induction actual as [|a l IH]; intros s ch.
+  - simpl. rewrite orb_false_r. reflexivity.
+  - cbn [fold_left]. unfold loop2_step at 2. unfold new_of. cbn [filter].
+    destruct (existsb (fun e => N.eqb (e_id e) (e_id a)) registered); cbn [negb].
+    + apply IH.
+    + rewrite IH. fold (new_of registered l). cbn [map adj_fold fold_left fst snd negb orb]. unfold ec_adj.
+      rewrite orb_true_r. reflexivity.
+Qed.
+
+(* ---- doUpdateEcShards ---- *)
+Lemma mput_absent : forall A (key : A -> N) v l, ~ In (key v) (map key l) -> mput key v l = l ++ [v].
+Proof.
+  induction l as [|y l IH]; intros H; simpl; auto.
+  destruct (N.eqb (key y) (key v)) eqn:E.
+  - apply N.eqb_eq in E. exfalso. apply H. left. exact E.
+  - rewrite IH; auto. intro Hin. apply H. right. exact Hin.
+Qed.
+
+Definition at_disk (n : path) (k : path) (a : ecinfo) : bool := path_eqb (n ++ [e_disk a]) k.
+
+Lemma do_update_effect : forall n s actual, length n = 3%nat -> Struct s -> In n (keys s) ->
+  NoDup (map e_id actual) ->
+  let s' := do_update_ec_shards s n actual in
+  Struct s' /\
+  (forall k, In k (keys s) -> In k (keys s')) /\
+  (forall k, In k (keys s') -> ~ In k (keys s) -> exists d, k = n ++ [d]) /\
+  (forall k t, U s' k t = U s k t) /\
+  (forall k, i_vols (info s' k) = i_vols (info s k)) /\
+  (forall k, i_ecs (info s' k) = if is_child_of n k then filter (at_disk n k) actual else i_ecs (info s k)) /\
+  (forall a, In a actual -> In (n ++ [e_disk a]) (keys s')).
+Proof.
+  intros n s actual Hln Hs Hn Hnd. unfold do_update_ec_shards.
+  set (s1 := map (fun e => if is_child_of n (fst e) then (fst e, set_ecs [] (snd e)) else e) s).
+  assert (K1 : keys s1 = keys s).
+  { unfold keys, s1. rewrite map_map. apply map_ext. intros [k i]. simpl. destruct (is_child_of n k); reflexivity. }
+  assert (I1 : forall k, info s1 k = if is_child_of n k then set_ecs [] (info s k) else info s k).
+  { intro k. unfold s1. clear. induction s as [|[k0 i0] s IH]; simpl.
+    - destruct (is_child_of n k); reflexivity.
+    - destruct (is_child_of n k0) eqn:E0; simpl; destruct (path_eqb k0 k) eqn:E; auto;
+        apply path_eqb_eq in E; subst k0; rewrite E0; reflexivity. }
+  assert (S1 : Struct s1).
+  { constructor.
+    - rewrite K1. apply Hs.
+    - rewrite K1. apply Hs.
+    - intros k p. rewrite K1. apply Hs.
+    - intros k Hk. rewrite K1 in Hk. rewrite I1. destruct (s_payload _ Hs k Hk) as [P1 [P2 [P3 P4]]].
+      destruct (is_child_of n k); [|repeat split; auto].
+      repeat split; simpl; auto; [constructor|intros ? []]. }
+  (* the registration loop, generalised over the already processed prefix *)
+  assert (G : forall rest done sx, NoDup (map e_id (done ++ rest)) -> Struct sx -> In n (keys sx) ->
+            (forall k, In k (keys s) -> In k (keys sx)) ->
+            (forall k, In k (keys sx) -> ~ In k (keys s) -> exists d, k = n ++ [d]) ->
+            (forall k t, U sx k t = U s k t) ->
+            (forall k, i_vols (info sx k) = i_vols (info s k)) ->
+            (forall k, i_ecs (info sx k) = if is_child_of n k then filter (at_disk n k) done else i_ecs (info s k)) ->
+            (forall a, In a done -> In (n ++ [e_disk a]) (keys sx)) ->
+            let sy := fold_left (fun s a => let s1 := get_or_create_disk s n (e_disk a) in
+                                 upd s1 (n ++ [e_disk a]) (fun i => set_ecs (put_ec a (i_ecs i)) i)) rest sx in
+            Struct sy /\ (forall k, In k (keys s) -> In k (keys sy)) /\
+            (forall k, In k (keys sy) -> ~ In k (keys s) -> exists d, k = n ++ [d]) /\
+            (forall k t, U sy k t = U s k t) /\ (forall k, i_vols (info sy k) = i_vols (info s k)) /\
+            (forall k, i_ecs (info sy k) = if is_child_of n k then filter (at_disk n k) (done ++ rest) else i_ecs (info s k)) /\
+            (forall a, In a (done ++ rest) -> In (n ++ [e_disk a]) (keys sy))).
+  { induction rest as [|a rest IH]; intros done sx Hnd' Hsx Hnx Hk Hnew HU Hv He Hd; cbn [fold_left].
+    - rewrite app_nil_r. split; [exact Hsx|]. split; [exact Hk|]. split; [exact Hnew|]. split; [exact HU|].
+      split; [exact Hv|]. split; [exact He|exact Hd].
+    - set (q := n ++ [e_disk a]).
+      set (sg := get_or_create_disk sx n (e_disk a)).
+      set (g := fun i => set_ecs (put_ec a (i_ecs i)) i).
+      assert (Hq : In q (keys sg)) by apply goc_present.
+      assert (Hsg : Struct sg) by (apply Struct_goc; auto).
+      assert (Ig : forall k, info sg k = info sx k) by (intro; apply info_goc).
+      assert (Hchild : is_child_of n q = true) by (apply is_child_of_spec; exists (e_disk a); reflexivity).
+      assert (Eq : i_ecs (info sx q) = filter (at_disk n q) done) by (rewrite He, Hchild; reflexivity).
+      assert (Hida : ~ In (e_id a) (map e_id (filter (at_disk n q) done))).
+      { intro Hin. apply in_map_iff in Hin. destruct Hin as [x [Ex Hx]]. apply filter_In in Hx.
+        rewrite map_app in Hnd'. simpl in Hnd'. apply NoDup_remove_2 in Hnd'. apply Hnd'.
+        apply in_or_app. left. rewrite <- Ex. apply in_map. tauto. }
+      assert (Eput : put_ec a (i_ecs (info sg q)) = filter (at_disk n q) done ++ [a]).
+      { rewrite Ig, Eq, put_ec_mput. apply mput_absent. exact Hida. }
+      specialize (IH (done ++ [a]) (upd sg q g)).
+      rewrite <- app_assoc in IH. apply IH; clear IH.
+      + exact Hnd'.
+      + apply Struct_upd; auto. unfold g. destruct (s_payload _ Hsg q Hq) as [P1 [P2 [P3 P4]]].
+        repeat split; simpl; auto.
+        * rewrite Eput. rewrite <- (filter_all_true _ (at_disk n q) [a]).
+          -- rewrite <- filter_app. apply NoDup_map_filter.
+             replace (done ++ a :: rest) with ((done ++ [a]) ++ rest) in Hnd' by (rewrite <- app_assoc; reflexivity).
+             rewrite map_app in Hnd'. eapply NoDup_app_l. exact Hnd'.
+          -- intros x [Hx|[]]. subst x. unfold at_disk. apply path_eqb_refl.
+        * intros e Hin. rewrite put_ec_mput in Hin. apply mput_in in Hin. destruct Hin as [Hin|Hin].
+          -- subst e. exists n. reflexivity.
+          -- apply P4. exact Hin.
+      + rewrite keys_upd. apply keys_goc. left. exact Hnx.
+      + intros k Hk0. rewrite keys_upd. apply keys_goc. left. auto.
+      + intros k Hk1 Hk0. rewrite keys_upd in Hk1. apply keys_goc in Hk1. destruct Hk1 as [Hk1|Hk1]; [auto|].
+        exists (e_disk a). exact Hk1.
+      + intros k t. rewrite U_upd by (intro; reflexivity). unfold U. rewrite Ig. apply HU.
+      + intro k. rewrite info_upd. destruct (path_eqb q k) eqn:E.
+        * apply path_eqb_eq in E. subst k. apply present_in in Hq. rewrite Hq. unfold g. simpl. rewrite Ig. apply Hv.
+        * rewrite Ig. apply Hv.
+      + intro k. rewrite info_upd. destruct (path_eqb q k) eqn:E.
+        * apply path_eqb_eq in E. subst k. apply present_in in Hq. rewrite Hq. unfold g. simpl.
+          assert (Ea : at_disk n q a = true) by (unfold at_disk; fold q; apply path_eqb_refl).
+          rewrite Eput, Hchild, filter_app. f_equal. simpl. rewrite Ea. reflexivity.
+        * assert (Ea : at_disk n k a = false) by (unfold at_disk; fold q; exact E).
+          rewrite Ig, He. destruct (is_child_of n k); [|reflexivity].
+          rewrite filter_app. simpl. rewrite Ea. rewrite app_nil_r. reflexivity.
+      + intros x Hx. rewrite keys_upd. apply keys_goc. apply in_app_or in Hx. destruct Hx as [Hx|[Hx|[]]].
+        * left. apply Hd. exact Hx.
+        * subst x. right. reflexivity. }
+  apply (G actual [] s1); auto.
+  - rewrite K1. exact Hn.
+  - intros k Hk. rewrite K1. exact Hk.
+  - intros k Hk Hk0. rewrite K1 in Hk. contradiction.
+  - intros k t. unfold U. rewrite I1. destruct (is_child_of n k); reflexivity.
+  - intro k. rewrite I1. destruct (is_child_of n k); reflexivity.
+  - intro k. rewrite I1. destruct (is_child_of n k); reflexivity.
+  - intros a [].
+Qed.
+
+(* ---- sums over a larger duplicate-free key list ---- *)
+Lemma sumZ_incl : forall (g : path -> Z) l l', NoDup l -> NoDup l' -> incl l l' ->
+  (forall k, In k l' -> ~ In k l -> g k = 0) -> sumZ g l' = sumZ g l.
+Proof.
+  induction l as [|x l IH]; intros l' Hnd Hnd' Hi Hz.
+  - simpl. apply sumZ_zero. intros k Hk. apply Hz; auto.
+  - inversion Hnd; subst.
+    assert (Hx : In x l') by (apply Hi; left; reflexivity).
+    apply in_split in Hx. destruct Hx as [l1 [l2 E]]. subst l'.
+    rewrite sumZ_app. simpl.
+    rewrite <- (IH (l1 ++ l2)).
+    + rewrite sumZ_app. lia.
+    + exact H2.
+    + eapply NoDup_remove_1. exact Hnd'.
+    + intros y Hy. assert (Hy' : In y (l1 ++ x :: l2)) by (apply Hi; right; exact Hy).
+      apply in_app_or in Hy'. apply in_or_app. destruct Hy' as [Hy'|[Hy'|Hy']]; auto.
+      subst y. contradiction.
+    + intros k Hk Hnk. apply Hz.
+      * apply in_app_or in Hk. apply in_or_app. destruct Hk; [left|right; right]; auto.
+      * intros [E|E]; [|contradiction]. subst k. apply NoDup_remove_2 in Hnd'. contradiction.
+Qed.
+
+(* the recomputation of the OLD payload over the keys of a larger table is still the old counter *)
+Lemma S_transfer : forall f e st ks, Struct st -> Cons f e st -> NoDup ks -> incl (keys st) ks ->
+  f zero_counts = 0 -> (forall k t, e k empty_info t = 0) ->
+  forall p t, sumZ (fun k => if is_prefix p k then e k (info st k) t else 0) ks = f (U st p t).
+Proof.
+  intros f e st ks Hs Hc Hnd Hi Hf He p t.
+  rewrite (sumZ_incl _ (keys st) ks (s_nodup _ Hs) Hnd Hi).
+  2:{ intros k _ Hk. rewrite (info_absent st k Hk), He. destruct (is_prefix p k); reflexivity. }
+  destruct (in_dec (list_eq_dec string_dec) p (keys st)) as [Hp|Hp].
+  - symmetry. apply (Hc p Hp t).
+  - unfold U. rewrite (info_absent st p Hp). simpl. rewrite Hf.
+    apply sumZ_zero. intros k Hk. rewrite (no_keys_under_absent st p Hs Hp k Hk). reflexivity.
+Qed.
+
+Lemma Cons_transfer : forall f e st st', Struct st -> Struct st' -> Cons f e st ->
+  incl (keys st) (keys st') -> f zero_counts = 0 -> (forall k t, e k empty_info t = 0) ->
+  (forall k t, f (U st' k t) = f (U st k t)) ->
+  (forall k t, e k (info st' k) t = e k (info st k) t) ->
+  Cons f e st'.
+Proof.
+  intros f e st st' Hs Hs' Hc Hi Hf He HU HE p Hp t.
+  rewrite HU. rewrite <- (S_transfer f e st (keys st') Hs Hc (s_nodup _ Hs') Hi Hf He p t).
+  unfold S. apply sumZ_ext_in. intros k Hk. rewrite HE. reflexivity.
+Qed.
+
+Lemma sumZ_entries_keys : forall (g : path -> ninfo -> Z) st, NoDup (keys st) ->
+  sumZ (fun en => g (fst en) (snd en)) st = sumZ (fun k => g k (info st k)) (keys st).
+Proof.
+  intros g st Hnd. unfold keys. rewrite sumZ_map. apply sumZ_ext_in. intros [k i] Hin. simpl.
+  rewrite (info_in st k i Hnd Hin). reflexivity.
+Qed.
+
+Lemma sumZ_partition : forall A (w : A -> Z) (p : A -> bool) l,
+  sumZ w l = sumZ w (filter p l) + sumZ w (filter (fun x => negb (p x)) l).
+Proof.
+  induction l as [|x l IH]; simpl; auto. destruct (p x); simpl; lia.
+Qed.
+
+(* ---- find_ec_last under distinct ids ---- *)
+Lemma NoDup_map_rev : forall A B (f : A -> B) l, NoDup (map f l) -> NoDup (map f (rev l)).
+Proof.
+  intros A B f l H. eapply Permutation_NoDup; [|exact H].
+  apply Permutation_map. apply Permutation_rev.
+Qed.
+
+Lemma find_last_in : forall actual a, NoDup (map e_id actual) -> In a actual ->
+  find_ec_last (e_id a) actual = Some a.
+Proof.
+  intros actual a Hnd Hin. unfold find_ec_last. rewrite find_ec_mfind. apply mfind_in.
+  - apply NoDup_map_rev. exact Hnd.
+  - apply in_rev in Hin. exact Hin.
+Qed.
+
+Lemma find_last_some : forall actual id a, find_ec_last id actual = Some a -> In a actual /\ e_id a = id.
+Proof.
+  intros actual id a H. unfold find_ec_last in H. rewrite find_ec_mfind in H. apply mfind_some in H.
+  destruct H as [H1 H2]. split; auto. apply in_rev. exact H1.
+Qed.
+
+Definition found (actual : list ecinfo) (e : ecinfo) : list ecinfo :=
+  match find_ec_last (e_id e) actual with Some a => [a] | None => [] end.
+Definition old_of (registered actual : list ecinfo) : list ecinfo :=
+  filter (fun a => existsb (fun e => N.eqb (e_id e) (e_id a)) registered) actual.
+
+Lemma found_perm_old : forall E actual, NoDup (map e_id actual) -> NoDup (map e_id E) ->
+  Permutation (flat_map (found actual) E) (old_of E actual).
+Proof.
+  intros E actual Ha He. apply NoDup_Permutation.
+  - (* NoDup of the found records: their ids are distinct ids of E *)
+    apply (NoDup_map_inv e_id).
+    clear Ha. induction E as [|e E IH]; simpl; [constructor|].
+    inversion He; subst. rewrite map_app. apply NoDup_app_intro.
+    + unfold found. destruct (find_ec_last (e_id e) actual); simpl; repeat constructor; intros [].
+    + apply IH. exact H2.
+    + intros x Hx Hx'. unfold found in Hx. destruct (find_ec_last (e_id e) actual) as [a|] eqn:F; [|destruct Hx].
+      destruct Hx as [Hx|[]]. subst x. apply find_last_some in F. destruct F as [_ F].
+      apply in_map_iff in Hx'. destruct Hx' as [b [Eb Hb]]. apply in_flat_map in Hb. destruct Hb as [e' [He' Hb]].
+      unfold found in Hb. destruct (find_ec_last (e_id e') actual) as [a'|] eqn:F'; [|destruct Hb].
+      destruct Hb as [Hb|[]]. subst b. apply find_last_some in F'. destruct F' as [_ F'].
+      apply H1. apply in_map_iff. exists e'. split; auto. congruence.
+  - unfold old_of. apply NoDup_filter. eapply NoDup_map_inv. exact Ha.
+  - intro a. split.
+    + intro H. apply in_flat_map in H. destruct H as [e [Hin H]]. unfold found in H.
+      destruct (find_ec_last (e_id e) actual) as [a'|] eqn:F; [|destruct H]. destruct H as [H|[]]. subst a'.
+      apply find_last_some in F. destruct F as [F1 F2]. unfold old_of. apply filter_In. split; auto.
+      apply existsb_exists. exists e. split; auto. apply N.eqb_eq. congruence.
+    + intro H. unfold old_of in H. apply filter_In in H. destruct H as [H1 H2].
+      apply existsb_exists in H2. destruct H2 as [e [Hin Eid]]. apply N.eqb_eq in Eid.
+      apply in_flat_map. exists e. split; auto. unfold found. rewrite Eid, (find_last_in actual a Ha H1). left. reflexivity.
+Qed.
+
+(* own deltas of the registered volumes plus the new volumes account exactly for
+   (new registration) - (old registration), restricted by any predicate on the disk *)
+Lemma own_sum : forall E actual (psi : string -> bool),
+  NoDup (map e_id actual) -> NoDup (map e_id E) ->
+  (forall e a, In e E -> In a actual -> e_id a = e_id e -> e_disk a = e_disk e) ->
+  let w := fun a : ecinfo => if psi (e_disk a) then popcount (e_bits a) else 0 in
+  sumZ (fun e => if psi (e_disk e) then own actual e else 0) E + sumZ w (new_of E actual) =
+  sumZ w actual - sumZ w E.
+Proof.
+  intros E actual psi Ha He Hd w.
+  rewrite (sumZ_partition _ w (fun a => existsb (fun e => N.eqb (e_id e) (e_id a)) E) actual).
+  fold (old_of E actual). fold (new_of E actual).
+  rewrite <- (sumZ_perm _ w _ _ (found_perm_old E actual Ha He)).
+  rewrite sumZ_flat_map.
+  assert (G : sumZ (fun e => (if psi (e_disk e) then own actual e else 0) + w e) E =
+              sumZ (fun e => sumZ w (found actual e)) E).
+  { apply sumZ_ext_in. intros e Hin. unfold own, an_of, dn_of, found, w.
+    destruct (find_ec_last (e_id e) actual) as [a|] eqn:F.
+    - apply find_last_some in F. destruct F as [F1 F2]. cbn [sumZ fold_right]. rewrite (Hd e a Hin F1 F2).
+      destruct (psi (e_disk e)); [|lia]. pose proof (popcount_exchange (e_bits a) (e_bits e)). lia.
+    - simpl. destruct (psi (e_disk e)); lia. }
+  rewrite sumZ_plus in G. lia.
+Qed.
+
+Section FullEcFinal.
+  Variable n : path.
+  Hypothesis Hln : length n = 3%nat.
+  Definition hd_of (a : ecinfo) : path := n ++ [e_disk a].
+
+  Lemma sum_single : forall (ks : list path) q (c : Z) (P : path -> bool), NoDup ks -> In q ks ->
+    sumZ (fun k => if P k then (if path_eqb q k then c else 0) else 0) ks = if P q then c else 0.
+  Proof.
+    intros ks q c P Hnd Hq.
+    rewrite (sumZ_update_one (fun _ => 0) _ ks q Hnd Hq).
+    - rewrite sumZ_zero by auto. rewrite path_eqb_refl. destruct (P q); lia.
+    - intros k Hk Hne. apply path_eqb_neq in Hne. rewrite path_eqb_sym in Hne. rewrite Hne. destruct (P k); reflexivity.
+  Qed.
+
+  Lemma sum_by_disk : forall (ks : list path) (l : list ecinfo) (P : path -> bool) (w : ecinfo -> Z),
+    NoDup ks -> (forall a, In a l -> In (hd_of a) ks) ->
+    sumZ (fun k => if P k then sumZ w (filter (at_disk n k) l) else 0) ks =
+    sumZ (fun a => if P (hd_of a) then w a else 0) l.
+  Proof.
+    intros ks l P w Hnd. induction l as [|a l IH]; intros Hin.
+    - simpl. apply sumZ_zero. intros k _. destruct (P k); reflexivity.
+    - change (sumZ (fun a0 => if P (hd_of a0) then w a0 else 0) (a :: l))
+        with ((if P (hd_of a) then w a else 0) + sumZ (fun a0 => if P (hd_of a0) then w a0 else 0) l).
+      rewrite <- IH by (intros; apply Hin; right; auto).
+      rewrite <- (sum_single ks (hd_of a) (w a) P Hnd) by (apply Hin; left; reflexivity).
+      rewrite <- sumZ_plus. apply sumZ_ext_in. intros k Hk.
+      destruct (P k); [|lia]. cbn [filter]. unfold at_disk at 1. fold (hd_of a).
+      destruct (path_eqb (hd_of a) k); [change (sumZ w (a :: filter (at_disk n k) l)) with (w a + sumZ w (filter (at_disk n k) l))|]; lia.
+  Qed.
+
+  (* the registered shards, per disk entry *)
+  Lemma node_ecs_sum : forall st (G : ecinfo -> Z), NoDup (keys st) ->
+    sumZ G (node_ecs st n) = sumZ (fun k => if is_child_of n k then sumZ G (i_ecs (info st k)) else 0) (keys st).
+  Proof.
+    intros st G Hnd. unfold node_ecs, disks_of. rewrite sumZ_flat_map, sumZ_filter.
+    rewrite (sumZ_entries_keys (fun k i => if is_child_of n k then sumZ G (i_ecs i) else 0) st Hnd). reflexivity.
+  Qed.
+
+  Lemma node_ecs_in : forall st e, Struct st -> In e (node_ecs st n) ->
+    In e (i_ecs (info st (hd_of e))) /\ In (hd_of e) (keys st).
+  Proof.
+    intros st e Hs Hin. unfold node_ecs, disks_of in Hin. apply in_flat_map in Hin. destruct Hin as [[k i] [H1 H2]].
+    apply filter_In in H1. destruct H1 as [H1 Hc]. simpl in Hc, H2. apply is_child_of_spec in Hc. destruct Hc as [x Ex].
+    assert (Hk : In k (keys st)) by (apply (in_map fst) in H1; exact H1).
+    rewrite <- (info_in st k i (s_nodup _ Hs) H1) in H2.
+    assert (e_disk e = x) by (apply (payload_disk_ec st k e n x Hs Hk H2 Ex)). subst x.
+    unfold hd_of. rewrite <- Ex. auto.
+  Qed.
+
+  Lemma EcRel_zero_inv : forall st r s D, Inv st r -> EcRel n st s D -> (forall k t, D k t = 0) -> Inv s r.
+  Proof.
+    intros st r s D [Hs Cv Cr Ce Cm Hr] [Hs' Hk Hnew Hv He Ho Hec] Hz.
+    assert (Hi : incl (keys st) (keys s)) by (intros k; apply Hk).
+    constructor; auto.
+    - apply (Cons_transfer _ _ st); auto; try (intros; apply E_empty).
+      + intros k t. apply Ho.
+      + intros k t. unfold E_vol, nvol. rewrite Hv. reflexivity.
+    - apply (Cons_transfer _ _ st); auto; try (intros; apply E_empty).
+      + intros k t. apply Ho.
+      + intros k t. unfold E_remote, nremote. rewrite Hv. reflexivity.
+    - apply (Cons_transfer _ _ st); auto; try (intros; apply E_empty).
+      + intros k t. rewrite Hec, Hz. lia.
+      + intros k t. unfold E_ec, nec. rewrite He. reflexivity.
+    - apply (Cons_transfer _ _ st); auto; try (intros; apply E_empty).
+      + intros k t. apply Ho.
+      + intros k t. unfold E_max. destruct (Nat.eqb (length k) 4); auto. apply Ho.
+    - destruct Hr as [R1 R2 R3]. constructor; auto.
+      + intro p. rewrite R2. split; intros [H1 H2]; split; auto.
+        destruct (in_dec (list_eq_dec string_dec) p (keys st)) as [Hp|Hp]; auto.
+        destruct (Hnew p H1 Hp) as [d E]. subst p. rewrite app_length in H2. simpl in H2. lia.
+      + intros m Hm t. rewrite <- (R3 m Hm t). apply Ho.
+  Qed.
+End FullEcFinal.
+
+Lemma removelast_in : forall A (l : list A) x, In x (removelast l) -> In x l.
+Proof.
+  induction l as [|y l IH]; intros x H; simpl in *; [contradiction|].
+  destruct l as [|z l]; [contradiction|]. destruct H as [H|H]; [left; auto|right; apply IH; exact H].
+Qed.
+
+Lemma sumZ_if_const : forall A (c : bool) (f : A -> Z) l,
+  sumZ (fun x => if c then f x else 0) l = if c then sumZ f l else 0.
+Proof. intros A c f l. destruct c; [reflexivity|]. apply sumZ_zero. auto. Qed.
+
+Theorem update_ec_inv : forall st r n actual order, Inv st r -> In n (keys st) -> length n = 3%nat ->
+  trig_ec_irregular st n actual = false -> trig_ec_cumulative st n actual = false ->
+  Inv (update_ec_shards order st n actual) r.
+Proof.
+  intros st r n actual order Hi Hn Hln Hirr Hcum.
+  rewrite update_ec_unfold. cbv zeta.
+  set (E := node_ecs st n) in *. set (E' := permute order E).
+  pose proof (i_struct _ _ Hi) as Hs.
+  (* regular input *)
+  unfold trig_ec_irregular in Hirr. fold E in Hirr.
+  apply orb_false_iff in Hirr. destruct Hirr as [Hirr C2]. apply orb_false_iff in Hirr. destruct Hirr as [C1 C3].
+  apply negb_false_iff in C1, C3.
+  apply (nodupb_sound _ N.eqb N.eqb_eq) in C1. apply (nodupb_sound _ N.eqb N.eqb_eq) in C3.
+  assert (C2' : forall e a, In e E -> In a actual -> e_id a = e_id e -> e_disk a = e_disk e).
+  { intros e a He Ha Hid. destruct (String.eqb (e_disk a) (e_disk e)) eqn:Ed; [apply String.eqb_eq; exact Ed|].
+    exfalso. assert (X : existsb (fun e => existsb (fun a => N.eqb (e_id a) (e_id e) && negb (String.eqb (e_disk a) (e_disk e))) actual) E = true).
+    { apply existsb_exists. exists e. split; auto. apply existsb_exists. exists a. split; auto.
+      rewrite Hid, N.eqb_refl, Ed. reflexivity. }
+    congruence. }
+  (* no cumulative effect *)
+  assert (Hzero : forall e, ec_changed actual e = false -> own actual e = 0).
+  { intros e Hc. unfold ec_changed in Hc. unfold own, an_of, dn_of.
+    destruct (find_ec_last (e_id e) actual) as [a|]; [|discriminate].
+    apply negb_false_iff, N.eqb_eq in Hc. rewrite Hc, popcount_ldiff_diag. lia. }
+  assert (Hz : forall e, In e (removelast E') -> own actual e = 0).
+  { unfold trig_ec_cumulative in Hcum. fold E in Hcum.
+    destruct (Nat.leb 2 (length E)) eqn:L.
+    - simpl in Hcum. intros e He. apply Hzero.
+      apply removelast_in in He. unfold E' in He. apply permute_in in He.
+      destruct (ec_changed actual e) eqn:X; auto.
+      assert (existsb (ec_changed actual) E = true) by (apply existsb_exists; exists e; auto). congruence.
+    - apply Nat.leb_gt in L. assert (L' : (length E' < 2)%nat) by (unfold E'; rewrite permute_length; exact L).
+      destruct E' as [|a [|b l]]; simpl in *; try lia; intros e []. }
+  destruct (loop1_fold n actual E' st 0 0 false eq_refl Hz) as [nc [dc E1]]. rewrite E1. rewrite loop2_fold.
+  fold E.
+  set (D1 := map (fun e => (e_disk e, own actual e)) E').
+  set (D2 := map (fun a => (e_disk a, popcount (e_bits a))) (new_of E actual)).
+  destruct (EcRel_adj_fold n Hln D1 st st _ (EcRel_refl n Hln st Hs) Hn) as [R1 Hn1].
+  destruct (EcRel_adj_fold n Hln D2 st _ _ R1 Hn1) as [R2 Hn2].
+  set (st2 := adj_fold n D2 (adj_fold n D1 st)) in *.
+  assert (HD1 : forall p t, adj_sum n D1 p t =
+            sumZ (fun e => if is_prefix p (n ++ [e_disk e]) && String.eqb (to_dt (e_disk e)) t then own actual e else 0) E).
+  { intros p t. unfold adj_sum, D1. rewrite sumZ_map. simpl. apply sumZ_perm. unfold E'. apply permute_perm. }
+  assert (HD2 : forall p t, adj_sum n D2 p t =
+            sumZ (fun a => if is_prefix p (n ++ [e_disk a]) && String.eqb (to_dt (e_disk a)) t then popcount (e_bits a) else 0)
+                 (new_of E actual)).
+  { intros p t. unfold adj_sum, D2. rewrite sumZ_map. reflexivity. }
+  destruct (false || existsb (chg actual) E' || negb match new_of E actual with [] => true | _ :: _ => false end) eqn:Ech.
+  - (* registrations are replaced by the reported ones *)
+    destruct (do_update_effect n st2 actual Hln (er_struct _ _ _ _ R2) Hn2 C1) as [S' [K' [N' [U' [V' [Ec' Pa']]]]]].
+    set (s' := do_update_ec_shards st2 n actual) in *.
+    assert (Hincl : incl (keys st) (keys s')) by (intros k Hk; apply K'; apply (er_keys _ _ _ _ R2); exact Hk).
+    destruct Hi as [_ Cv Cr Ce Cm Hr].
+    constructor; auto.
+    + apply (Cons_transfer _ _ st); auto; try (intros; apply E_empty).
+      * intros k t. rewrite U'. apply (er_other _ _ _ _ R2).
+      * intros k t. unfold E_vol, nvol. rewrite V', (er_vols _ _ _ _ R2). reflexivity.
+    + apply (Cons_transfer _ _ st); auto; try (intros; apply E_empty).
+      * intros k t. rewrite U'. apply (er_other _ _ _ _ R2).
+      * intros k t. unfold E_remote, nremote. rewrite V', (er_vols _ _ _ _ R2). reflexivity.
+    + (* EC shard counts *)
+      intros p Hp t.
+      rewrite U', (er_ec _ _ _ _ R2). rewrite HD1, HD2.
+      set (psi := fun d => is_prefix p (n ++ [d]) && String.eqb (to_dt d) t).
+      pose proof (own_sum E actual psi C1 C3 C2') as Hsum. cbv zeta in Hsum. unfold psi in Hsum.
+      assert (Hnec : forall k, nec (info s' k) t =
+                if is_child_of n k then sumZ (we t) (filter (at_disk n k) actual) else nec (info st k) t).
+      { intro k. rewrite !nec_sum, Ec'. destruct (is_child_of n k); [reflexivity|].
+        rewrite (er_ecs _ _ _ _ R2). reflexivity. }
+      pose proof (S_transfer ecShardCount E_ec st (keys s') Hs Ce (s_nodup _ S') Hincl eq_refl
+                    (fun k t => proj1 (proj2 (proj2 (E_empty k t)))) p t) as Hold.
+      unfold S. unfold E_ec at 1.
+      (* split the recomputation into the old one plus the change on the disks of n *)
+      assert (Hsplit : sumZ (fun k => if is_prefix p k then nec (info s' k) t else 0) (keys s') =
+                sumZ (fun k => if is_prefix p k then E_ec k (info st k) t else 0) (keys s') +
+                (sumZ (fun k => if is_prefix p k && is_child_of n k then sumZ (we t) (filter (at_disk n k) actual) else 0) (keys s') -
+                 sumZ (fun k => if is_prefix p k && is_child_of n k then nec (info st k) t else 0) (keys s'))).
+      { replace (sumZ (fun k => if is_prefix p k && is_child_of n k then sumZ (we t) (filter (at_disk n k) actual) else 0) (keys s') -
+                 sumZ (fun k => if is_prefix p k && is_child_of n k then nec (info st k) t else 0) (keys s'))
+          with (sumZ (fun k => (if is_prefix p k && is_child_of n k then sumZ (we t) (filter (at_disk n k) actual) else 0) -
+                               (if is_prefix p k && is_child_of n k then nec (info st k) t else 0)) (keys s')).
+        2:{ clear. induction (keys s') as [|k l IH]; simpl; lia. }
+        rewrite <- sumZ_plus. apply sumZ_ext_in. intros k _. rewrite Hnec. unfold E_ec.
+        destruct (is_prefix p k), (is_child_of n k); simpl; lia. }
+      rewrite Hsplit, Hold.
+      (* the new registration, per reported shard set *)
+      rewrite (sum_by_disk n Hln (keys s') actual (fun k => is_prefix p k && is_child_of n k) (we t) (s_nodup _ S') Pa').
+      (* the old registration, per registered shard set *)
+      assert (Hreg : sumZ (fun k => if is_prefix p k && is_child_of n k then nec (info st k) t else 0) (keys s') =
+                sumZ (fun e => if is_prefix p (hd_of n e) then we t e else 0) E).
+      { rewrite (sumZ_incl _ (keys st) (keys s') (s_nodup _ Hs) (s_nodup _ S') Hincl).
+        2:{ intros k _ Hk. rewrite (info_absent st k Hk). destruct (is_prefix p k && is_child_of n k); reflexivity. }
+        unfold E. rewrite (node_ecs_sum n st _ (s_nodup _ Hs)). apply sumZ_ext_in. intros k Hk.
+        destruct (is_child_of n k) eqn:Ck; [|rewrite andb_false_r; reflexivity]. rewrite andb_true_r.
+        rewrite nec_sum, <- sumZ_if_const. apply sumZ_ext_in. intros e He.
+        apply is_child_of_spec in Ck. destruct Ck as [x Ex].
+        assert (e_disk e = x) by (apply (payload_disk_ec st k e n x Hs Hk He Ex)). subst x.
+        unfold hd_of. rewrite <- Ex. reflexivity. }
+      rewrite Hreg.
+      assert (Hw1 : sumZ (fun a => if is_prefix p (hd_of n a) && is_child_of n (hd_of n a) then we t a else 0) actual =
+                sumZ (fun a => if is_prefix p (n ++ [e_disk a]) && String.eqb (to_dt (e_disk a)) t then popcount (e_bits a) else 0) actual).
+      { apply sumZ_ext_in. intros a _. unfold hd_of, we.
+        assert (Hc : is_child_of n (n ++ [e_disk a]) = true) by (apply is_child_of_spec; exists (e_disk a); reflexivity).
+        rewrite Hc, andb_true_r. destruct (is_prefix p (n ++ [e_disk a])), (String.eqb (to_dt (e_disk a)) t); reflexivity. }
+      assert (Hw2 : sumZ (fun e => if is_prefix p (hd_of n e) then we t e else 0) E =
+                sumZ (fun a => if is_prefix p (n ++ [e_disk a]) && String.eqb (to_dt (e_disk a)) t then popcount (e_bits a) else 0) E).
+      { apply sumZ_ext_in. intros a _. unfold hd_of, we.
+        destruct (is_prefix p (n ++ [e_disk a])), (String.eqb (to_dt (e_disk a)) t); reflexivity. }
+      rewrite Hw1, Hw2. lia.
+    + apply (Cons_transfer _ _ st); auto; try (intros; apply E_empty).
+      * intros k t. rewrite U'. apply (er_other _ _ _ _ R2).
+      * intros k t. unfold E_max. destruct (Nat.eqb (length k) 4); auto.
+        fold (U s' k t). fold (U st k t). rewrite U'. apply (er_other _ _ _ _ R2).
+    + destruct Hr as [Q1 Q2 Q3]. constructor; auto.
+      * intro p. rewrite Q2. split; intros [H1 H2]; split; auto.
+        destruct (in_dec (list_eq_dec string_dec) p (keys st)) as [Hp|Hp]; auto.
+        exfalso.
+        destruct (in_dec (list_eq_dec string_dec) p (keys st2)) as [Hp2|Hp2].
+        -- destruct (er_new _ _ _ _ R2 p Hp2 Hp) as [d Ed]. subst p. rewrite app_length in H2. simpl in H2. lia.
+        -- destruct (N' p H1 Hp2) as [d Ed]. subst p. rewrite app_length in H2. simpl in H2. lia.
+      * intros m Hm t. rewrite <- (Q3 m Hm t). rewrite U'. apply (er_other _ _ _ _ R2).
+  - (* nothing changed: only zero deltas were applied *)
+    apply (EcRel_zero_inv n Hln st r st2 _ Hi R2).
+    apply orb_false_iff in Ech. destruct Ech as [Ech1 Ech2]. simpl in Ech1.
+    intros k t. rewrite HD1, HD2.
+    assert (Hnew : new_of E actual = []).
+    { destruct (new_of E actual); [reflexivity|discriminate]. }
+    rewrite Hnew. simpl.
+    rewrite sumZ_zero; [reflexivity|].
+    intros e He.
+    assert (Hch : chg actual e = false).
+    { destruct (chg actual e) eqn:X; auto.
+      assert (existsb (chg actual) E' = true).
+      { apply existsb_exists. exists e. split; auto. unfold E'. apply permute_in. exact He. }
+      congruence. }
+    unfold chg in Hch. unfold own.
+    destruct (find_ec_last (e_id e) actual) as [a|] eqn:F; [|discriminate].
+    apply orb_false_iff in Hch. destruct Hch as [H1 H2]. apply Z.ltb_ge in H1, H2.
+    assert (A1 : 0 <= an_of actual e) by (unfold an_of; rewrite F; apply popcount_nonneg).
+    assert (A2 : 0 <= dn_of actual e) by (unfold dn_of; rewrite F; apply popcount_nonneg).
+    replace (an_of actual e - dn_of actual e) with 0 by lia.
+    destruct (is_prefix k (n ++ [e_disk e]) && String.eqb (to_dt (e_disk e)) t); reflexivity.
+Qed.
+
+(* ================================================================== *)
+(* 14. one step, whole histories                                       *)
+(* ================================================================== *)
+Lemma ref_map_absent : forall (r : ref_state) n (g : list (string * Z) -> list (string * Z)),
+  ~ In n (rkeys r) ->
+  map (fun e => if path_eqb (fst e) n then (fst e, g (snd e)) else e) r = r.
+Proof.
+  intros r n g H. rewrite <- (map_id r) at 2. apply map_ext_in. intros [k i] Hin. simpl.
+  destruct (path_eqb k n) eqn:E; auto. apply path_eqb_eq in E. subst k. exfalso. apply H.
+  apply (in_map fst) in Hin. exact Hin.
+Qed.
+
+Lemma ref_filter_absent : forall (r : ref_state) n, ~ In n (rkeys r) ->
+  filter (fun e => negb (path_eqb (fst e) n)) r = r.
+Proof.
+  intros r n H. apply filter_all_true. intros [k i] Hin. simpl. apply negb_true_iff. apply path_eqb_neq.
+  intro E. subst k. apply H. apply (in_map fst) in Hin. exact Hin.
+Qed.
+
+Theorem step_inv : forall st r o order, Inv st r -> wf_op o = true -> trigger st o = None ->
+  Inv (step order st o) (ref_step r o).
+Proof.
+  intros st r o order Hi Hwf Ht.
+  destruct o as [dc rack node maxs|n maxs|n vs|n news dels|n shards|n news dels|n].
+  - apply join_inv; auto.
+  - (* AdjustMax *)
+    unfold step, trigger in *. cbn [op_node] in *.
+    destruct (present st n && Nat.eqb (length n) 3) eqn:P; cbn [negb] in *.
+    + apply andb_prop in P. destruct P as [P L]. apply present_in in P. apply Nat.eqb_eq in L.
+      destruct (trig_max_shared st n maxs) eqn:T; [discriminate|].
+      apply adjust_max_inv; auto.
+    + cbn [ref_step]. rewrite ref_map_absent; auto.
+      intro X. apply (r_keys _ _ (i_ref _ _ Hi)) in X. destruct X as [X1 X2].
+      apply present_in in X1. rewrite X1, X2 in P. discriminate.
+  - (* FullVol *)
+    unfold step. cbn [op_node ref_step].
+    destruct (present st n && Nat.eqb (length n) 3) eqn:P; cbn [negb]; auto.
+    apply andb_prop in P. destruct P as [P L]. apply present_in in P. apply Nat.eqb_eq in L.
+    apply update_volumes_inv; auto.
+  - (* IncVol *)
+    unfold step, trigger in *. cbn [op_node ref_step] in *.
+    destruct (present st n && Nat.eqb (length n) 3) eqn:P; cbn [negb] in *; auto.
+    apply andb_prop in P. destruct P as [P L]. apply present_in in P. apply Nat.eqb_eq in L.
+    destruct (trig_stale_delete st n dels) eqn:T0; [discriminate|].
+    destruct (trig_remote_delete st n dels) eqn:T3; [discriminate|].
+    apply delta_update_volumes_inv; auto.
+  - (* FullEc *)
+    unfold step, trigger in *. cbn [op_node ref_step] in *.
+    destruct (present st n && Nat.eqb (length n) 3) eqn:P; cbn [negb] in *; auto.
+    apply andb_prop in P. destruct P as [P L]. apply present_in in P. apply Nat.eqb_eq in L.
+    destruct (trig_ec_irregular st n shards) eqn:T4; [discriminate|].
+    destruct (trig_ec_cumulative st n shards) eqn:T1; [discriminate|].
+    apply update_ec_inv; auto.
+  - (* IncEc *)
+    unfold step. cbn [op_node ref_step].
+    destruct (present st n && Nat.eqb (length n) 3) eqn:P; cbn [negb]; auto.
+    apply andb_prop in P. destruct P as [P L]. apply present_in in P. apply Nat.eqb_eq in L.
+    apply delta_update_ec_inv; auto.
+  - (* Unregister *)
+    unfold step. cbn [op_node].
+    destruct (present st n && Nat.eqb (length n) 3) eqn:P; cbn [negb].
+    + apply andb_prop in P. destruct P as [P L]. apply present_in in P. apply Nat.eqb_eq in L.
+      apply unregister_inv; auto.
+    + cbn [ref_step]. rewrite ref_filter_absent; auto.
+      intro X. apply (r_keys _ _ (i_ref _ _ Hi)) in X. destruct X as [X1 X2].
+      apply present_in in X1. rewrite X1, X2 in P. discriminate.
+Qed.
+
+Lemma init_inv : Inv init_state [].
+Proof.
+  constructor.
+  - constructor.
+    + repeat constructor. intros [].
+    + left. reflexivity.
+    + intros k p [Hk|[]] Hp. subst k. destruct p; [left; reflexivity|discriminate].
+    + intros k [Hk|[]]. subst k. apply payload_ok_empty.
+  - intros p [Hp|[]] t. subst p. reflexivity.
+  - intros p [Hp|[]] t. subst p. reflexivity.
+  - intros p [Hp|[]] t. subst p. reflexivity.
+  - intros p [Hp|[]] t. subst p. reflexivity.
+  - constructor.
+    + constructor.
+    + intro p. split; [intros []|]. intros [[Hp|[]] Hl]. subst p. discriminate.
+    + intros n [].
+Qed.
+
+(* the boolean oracle of the correspondence check follows from the invariant *)
+Theorem inv_exact_b : forall st r, Inv st r -> exact_b st r = true.
+Proof.
+  intros st r [Hs Cv Cr Ce Cm Hr]. unfold exact_b. cbv zeta.
+  apply forallb_forall. intros [p i] Hin. apply forallb_forall. intros t _.
+  assert (Hp : In p (keys st)) by (apply (in_map fst) in Hin; exact Hin).
+  simpl fst. unfold exact_at.
+  pose proof (s_nodup _ Hs) as Hnd.
+  repeat (apply andb_true_intro; split).
+  - apply Z.eqb_eq. rewrite (sumZ_beneath (fun k i => nvol i t) st p Hnd). apply (Cv p Hp t).
+  - apply Z.eqb_eq. rewrite (sumZ_beneath (fun k i => nremote i t) st p Hnd). apply (Cr p Hp t).
+  - apply Z.eqb_eq. rewrite (sumZ_beneath (fun k i => nec i t) st p Hnd). apply (Ce p Hp t).
+  - apply Z.eqb_eq.
+    change (sumZ (fun e => dmax e t) (beneath st p)) with (sumZ (fun e => E_max (fst e) (snd e) t) (beneath st p)).
+    rewrite (sumZ_beneath (fun k i => E_max k i t) st p Hnd). apply (Cm p Hp t).
+  - destruct (Nat.eqb (length p) 3) eqn:L; auto. apply Nat.eqb_eq in L.
+    apply Z.eqb_eq. apply (r_max _ _ Hr). apply (r_keys _ _ Hr). auto.
+Qed.
+
+(* every state of a history without a known-finding trigger is exact *)
+Fixpoint all_exact (states : list state) (refs : list ref_state) : bool :=
+  match states, refs with
+  | s :: states', r :: refs' => exact_b s r && all_exact states' refs'
+  | _, _ => true
+  end.
+
+Theorem run_exact : forall ops orders st r, Inv st r -> forallb wf_op ops = true ->
+  first_trigger orders st ops = None ->
+  all_exact (run orders st ops) (ref_run r ops) = true.
+Proof.
+  induction ops as [|o ops IH]; intros orders st r Hi Hwf Ht; [reflexivity|].
+  simpl in Hwf. apply andb_prop in Hwf. destruct Hwf as [Hw1 Hw2].
+  cbn [first_trigger] in Ht. destruct (trigger st o) eqn:T; [discriminate|].
+  cbn [run ref_run all_exact].
+  pose proof (step_inv st r o (hd [] orders) Hi Hw1 T) as Hi'.
+  rewrite (inv_exact_b _ _ Hi'). simpl. apply IH; auto.
+Qed.
+
+(* ---- the successor enumeration of the correspondence check is exact ---- *)
+Theorem step_all_spec : forall st o s, In s (step_all st o) <-> exists order, step order st o = s.
+Proof.
+  intros st o s.
+  assert (Irr : forall order, (forall m, o <> AdjustMax (op_node o) m) -> (forall a, o <> FullEc (op_node o) a) ->
+                step order st o = step [] st o).
+  { intros order H1 H2. destruct o; try reflexivity.
+    - exfalso. apply (H1 maxs). reflexivity.
+    - exfalso. apply (H2 shards). reflexivity. }
+  destruct o as [dc rack node maxs|n maxs|n vs|n news dels|n shards|n news dels|n];
+    try (unfold step_all; split;
+         [intros [H|[]]; exists []; exact H
+         |intros [order H]; left; rewrite <- H; symmetry; apply Irr; intros; discriminate]).
+  - (* AdjustMax *)
+    unfold step_all. rewrite in_map_iff. split.
+    + intros [ord [H _]]. exists ord. exact H.
+    + intros [order H].
+      destruct (all_orders_complete (length maxs) _ maxs order (le_n _)) as [ord' [Hin Heq]].
+      exists ord'. split; auto. rewrite <- H. unfold step. cbn [op_node].
+      destruct (negb (present st n && Nat.eqb (length n) 3)); auto. rewrite Heq. reflexivity.
+  - (* FullEc *)
+    unfold step_all. rewrite in_map_iff. split.
+    + intros [ord [H _]]. exists ord. exact H.
+    + intros [order H].
+      destruct (all_orders_complete (length (node_ecs st n)) _ (node_ecs st n) order (le_n _)) as [ord' [Hin Heq]].
+      exists ord'. split; auto. rewrite <- H. unfold step. cbn [op_node].
+      destruct (negb (present st n && Nat.eqb (length n) 3)); auto.
+      unfold update_ec_shards. rewrite Heq. reflexivity.
+Qed.
+
+(* ---- c12_propagation: a delta applied at a node changes every ancestor (and the node) by the
+        same amount, and nothing else ---- *)
+Theorem propagation : forall st q d,
+  keys (up_adjust st q d) = keys st /\
+  (forall p t, In p (keys st) ->
+     U (up_adjust st q d) p t = if is_prefix p q then cadd (U st p t) (uget d t) else U st p t) /\
+  (forall p, i_vols (info (up_adjust st q d) p) = i_vols (info st p) /\
+             i_ecs (info (up_adjust st q d) p) = i_ecs (info st p)).
+Proof.
+  intros st q d. split; [apply keys_up_adjust|]. split.
+  - intros p t Hp. apply U_up_adjust. exact Hp.
+  - intro p. split; [apply vols_up_adjust|apply ecs_up_adjust].
+Qed.
+(* END-OF-PART-6 *)
